@@ -13,6 +13,9 @@ namespace LspVerif
 
 variable (E : Env) (bad : List PyTy)
 
+/-- the annotation passes the structural closure check (at some fuel) -/
+def InU (H : List PyTy) (ty : PyTy) : Prop := ∃ n, lightOK E bad H n ty = true
+
 theorem optionalOf_inv {ts : List PyTy} {x : PyTy} (h : PyTy.optionalOf ts = some x) :
     ts = [.none, x] ∨ ts = [x, .none] := by
   rcases ts with _ | ⟨a, _ | ⟨b, _ | ⟨c, r⟩⟩⟩
@@ -87,10 +90,10 @@ theorem runFieldVld_vld_none (cls : Name) (f : Field) (v : PyVal) (h : f.vld = V
 
 /-- structuring every attribute of a class node succeeds with typed readings, and attributes that
     carry validators get the very value the given reading has -/
-theorem fields_total (U : List PyTy) (cname : Name) (kvs : List (Name × Json)) (n : Nat)
-    (HS : ∀ x, x.size < (Json.obj kvs).size → ∀ B ∈ U, Valid E bad B x → Goal E bad B x) :
+theorem fields_total (H : List PyTy) (cname : Name) (kvs : List (Name × Json)) (n : Nat)
+    (HS : ∀ x, x.size < (Json.obj kvs).size → ∀ B, InU E bad H B → Valid E bad B x → Goal E bad B x) :
     ∀ (fs : List Field) (vals : List (Name × PyVal)), repFields (rep E bad n) kvs fs vals = true →
-      (∀ f ∈ fs, f.ty ∈ U ∧ (f.vld = Vld.none ∨ simpleTyF 4 f.ty = true)) →
+      (∀ f ∈ fs, InU E bad H f.ty ∧ (f.vld = Vld.none ∨ simpleTyF 4 f.ty = true)) →
       ∃ vals', (∃ m, structFields (structTy E m) cname kvs fs = .ok vals') ∧
         (∃ k, repFields (rep E bad k) kvs fs vals' = true) ∧
         (∀ u, runVlds E cname fs vals = .ok u → runVlds E cname fs vals' = .ok u)
@@ -100,7 +103,7 @@ theorem fields_total (U : List PyTy) (cname : Name) (kvs : List (Name × Json)) 
   | f :: fs, (a, v) :: vs, h, hU => by
     simp only [repFields, Bool.and_eq_true, beq_iff_eq] at h
     obtain ⟨⟨ha, hcl⟩, hrest⟩ := h
-    obtain ⟨vals', ⟨m2, hm2⟩, ⟨k2, hk2⟩, hv2⟩ := fields_total U cname kvs n HS fs vs hrest (fun g hg => hU g (by simp [hg]))
+    obtain ⟨vals', ⟨m2, hm2⟩, ⟨k2, hk2⟩, hv2⟩ := fields_total H cname kvs n HS fs vs hrest (fun g hg => hU g (by simp [hg]))
     obtain ⟨hfU, hfv⟩ := hU f (by simp)
     -- the value of this attribute
     have hone : ∃ v', (∃ m, fieldVal (structTy E m) cname kvs f = .ok v') ∧
@@ -144,9 +147,9 @@ theorem fields_total (U : List PyTy) (cname : Name) (kvs : List (Name × Json)) 
 
 /-! ### maps and tuples -/
 
-theorem collect_entries (U : List PyTy) (k t : PyTy) (n : Nat) (J : Json)
-    (hk : k ∈ U) (ht : t ∈ U)
-    (HS : ∀ x, x.size < J.size → ∀ B ∈ U, Valid E bad B x → Goal E bad B x) :
+theorem collect_entries (H : List PyTy) (k t : PyTy) (n : Nat) (J : Json)
+    (hk : InU E bad H k) (ht : InU E bad H t)
+    (HS : ∀ x, x.size < J.size → ∀ B, InU E bad H B → Valid E bad B x → Goal E bad B x) :
     ∀ (ps : List (PyVal × PyVal)) (kvs : List (Name × Json)),
       (∀ kv ∈ kvs, kv.2.size < J.size ∧ 1 < J.size) →
       all2 (repEntry (rep E bad n) k t) ps kvs = true →
@@ -157,7 +160,7 @@ theorem collect_entries (U : List PyTy) (k t : PyTy) (n : Nat) (J : Json)
   | _ :: _, [], _, h => by simp [all2] at h
   | p :: ps, kv :: kvs, hsz, h => by
     simp only [all2, Bool.and_eq_true] at h
-    obtain ⟨ps', ⟨m2, hm2⟩, ⟨n2, hn2⟩⟩ := collect_entries U k t n J hk ht HS ps kvs (fun x hx => hsz x (by simp [hx])) h.2
+    obtain ⟨ps', ⟨m2, hm2⟩, ⟨n2, hn2⟩⟩ := collect_entries H k t n J hk ht HS ps kvs (fun x hx => hsz x (by simp [hx])) h.2
     have hsz0 := hsz kv (by simp)
     have h1 := h.1
     simp only [repEntry, Bool.and_eq_true] at h1
@@ -196,17 +199,17 @@ theorem collect_entries (U : List PyTy) (k t : PyTy) (n : Nat) (J : Json)
       case str => exact hnk
       all_goals exact rep_mono E bad (Nat.le_trans (Nat.le_max_left nk nv) (Nat.le_max_left _ n2)) hnk
 
-theorem collect_tuple (U : List PyTy) (n : Nat) (J : Json)
-    (HS : ∀ x, x.size < J.size → ∀ B ∈ U, Valid E bad B x → Goal E bad B x) :
+theorem collect_tuple (H : List PyTy) (n : Nat) (J : Json)
+    (HS : ∀ x, x.size < J.size → ∀ B, InU E bad H B → Valid E bad B x → Goal E bad B x) :
     ∀ (ts : List PyTy) (vs : List PyVal) (xs : List Json),
-      (∀ t ∈ ts, t ∈ U) → (∀ x ∈ xs, x.size < J.size) → all3 (rep E bad n) ts vs xs = true →
+      (∀ t ∈ ts, InU E bad H t) → (∀ x ∈ xs, x.size < J.size) → all3 (rep E bad n) ts vs xs = true →
       xs.length = ts.length ∧
       ∃ ws, (∃ m, mapE (fun (p : PyTy × Json) => structTy E m p.1 p.2) (ts.zip xs) = .ok ws) ∧
         (∃ n', all3 (rep E bad n') ts ws xs = true)
   | [], [], [], _, _, _ => ⟨rfl, [], ⟨0, rfl⟩, ⟨0, rfl⟩⟩
   | t :: ts, v :: vs, x :: xs, hU, hsz, h => by
     simp only [all3, Bool.and_eq_true] at h
-    obtain ⟨hl, ws, ⟨m2, hm2⟩, ⟨n2, hn2⟩⟩ := collect_tuple U n J HS ts vs xs (fun u hu => hU u (by simp [hu])) (fun y hy => hsz y (by simp [hy])) h.2
+    obtain ⟨hl, ws, ⟨m2, hm2⟩, ⟨n2, hn2⟩⟩ := collect_tuple H n J HS ts vs xs (fun u hu => hU u (by simp [hu])) (fun y hy => hsz y (by simp [hy])) h.2
     obtain ⟨v', ⟨m1, hm1⟩, ⟨n1, hn1⟩⟩ := HS x (hsz x (by simp)) t (hU t (by simp)) ⟨v, n, h.1⟩
     refine ⟨by simp [hl], v' :: ws, ⟨max m1 m2, ?_⟩, ⟨max n1 n2, ?_⟩⟩
     · simp only [List.zip_cons_cons]
@@ -220,32 +223,67 @@ theorem collect_tuple (U : List PyTy) (n : Nat) (J : Json)
   | _ :: _, [], _, _, _, h => by simp [all3] at h
   | _ :: _, _ :: _, [], _, _, h => by simp [all3] at h
 
-/-! ### annotations other than unions -/
 
-theorem tyOK_mem {U : List PyTy} (hU : envOK E bad U = true) {ty : PyTy} (h : ty ∈ U) : tyOK E bad U ty = true :=
-  List.all_eq_true.mp hU ty h
+/-! ### the closure check -/
+
+theorem lightOK_succ (H : List PyTy) : ∀ (n : Nat) (ty : PyTy), lightOK E bad H n ty = true → lightOK E bad H (n + 1) ty = true
+  | 0, _, h => by simp [lightOK] at h
+  | n + 1, ty, h => by
+    have ih := lightOK_succ H n
+    unfold lightOK at h ⊢
+    simp only [Bool.or_eq_true] at h ⊢
+    rcases h with hb | h
+    · exact Or.inl hb
+    · right
+      cases hh : E.hookFor ty with
+      | some hk => simpa [hh] using h
+      | none =>
+        simp only [hh] at h ⊢
+        cases ty with
+        | seq t => exact ih t h
+        | dict k v =>
+          simp only [Bool.and_eq_true] at h ⊢
+          exact ⟨ih k h.1, ih v h.2⟩
+        | tuple ts =>
+          simp only [List.all_eq_true] at h ⊢
+          exact fun t ht => ih t (h t ht)
+        | union ts =>
+          simp only at h ⊢
+          cases ho : PyTy.optionalOf ts with
+          | some x =>
+            simp only [ho, Bool.and_eq_true] at h ⊢
+            exact ⟨ih x h.1, h.2⟩
+          | none => simpa [ho] using h
+        | _ => exact h
+
+theorem InU.of_fuel {H : List PyTy} {n : Nat} {ty : PyTy} (h : lightOK E bad H n ty = true) : InU E bad H ty := ⟨n, h⟩
+
+/-! ### annotations other than unions -/
 
 theorem findEnum_name {e : Name} {pe : PyEnum} (h : E.pkg.findEnum e = some pe) : pe.name = e := by
   have := List.find?_some h
   simpa using this
 
-theorem lemmaA (U : List PyTy) (hU : envOK E bad U = true) (j : Json)
-    (HS : ∀ x, x.size < j.size → ∀ B ∈ U, Valid E bad B x → Goal E bad B x) :
-    ∀ ty ∈ U, ty.isUnionTy = false → Valid E bad ty j → Goal E bad ty j := by
+theorem lemmaA (H : List PyTy) (hC : clsesOK E bad H = true) (j : Json)
+    (HS : ∀ x, x.size < j.size → ∀ B, InU E bad H B → Valid E bad B x → Goal E bad B x) :
+    ∀ ty, InU E bad H ty → ty.isUnionTy = false → Valid E bad ty j → Goal E bad ty j := by
   intro ty hty hnu hv
   obtain ⟨w, n, hr⟩ := hv
-  have hok := tyOK_mem E bad hU hty
+  obtain ⟨kf, hok⟩ := hty
   have hnb := rep_not_bad E bad hr
-  simp only [tyOK, hnb, Bool.false_or] at hok
+  cases kf with
+  | zero => simp [lightOK] at hok
+  | succ kf =>
+  unfold lightOK at hok
+  simp only [hnb, Bool.false_or] at hok
   cases hh : E.hookFor ty with
   | some h =>
     simp only [hh] at hok
-    have hd : dispatchOK E bad U ty h = (h.isRetSelf && selfRepF bad 8 ty) := by
-      cases ty <;> first | rfl | simp [PyTy.isUnionTy] at hnu
-    rw [hd] at hok
-    simp only [Bool.and_eq_true] at hok
-    cases h <;> try (simp [HExpr.isRetSelf] at hok; done)
-    refine ⟨PyVal.ofJson j, ⟨1, ?_⟩, ⟨n, selfRep_sound E bad 8 n ty w j hok.2 hr⟩⟩
+    have hd : (h.isRetSelf && selfRepF bad 8 ty) = true := by
+      cases ty <;> first | exact hok | simp [PyTy.isUnionTy] at hnu
+    simp only [Bool.and_eq_true] at hd
+    cases h <;> try (simp [HExpr.isRetSelf] at hd; done)
+    refine ⟨PyVal.ofJson j, ⟨1, ?_⟩, ⟨n, selfRep_sound E bad 8 n ty w j hd.2 hr⟩⟩
     simp [structTy, hh, HExpr.run]
   | none =>
     simp only [hh] at hok
@@ -322,7 +360,7 @@ theorem lemmaA (U : List PyTy) (hU : envOK E bad U = true) (j : Json)
       | seq t =>
         cases w <;> cases j <;> try (simp at h2; done)
         case list.arr vs xs =>
-          have htU : t ∈ U := inU_sound (by simpa using hok)
+          have htU : InU E bad H t := ⟨kf, hok⟩
           have helems : ∀ x ∈ xs, ∃ v', (∃ m, (HExpr.structAs t).run (structTy E m) x = .ok v') ∧ Rep E bad t v' x := by
             intro x hx
             obtain ⟨w', hw'⟩ := all2_exists_left vs xs h2 x hx
@@ -343,7 +381,7 @@ theorem lemmaA (U : List PyTy) (hU : envOK E bad U = true) (j : Json)
             have h1 := size_mem_obj kvs kv hkv
             have h0 := Json.size_pos kv.2
             exact ⟨h1, by omega⟩
-          obtain ⟨ps', ⟨m, hm⟩, ⟨k, hk⟩⟩ := collect_entries E bad U kt vt n (.obj kvs) (inU_sound hok.1) (inU_sound hok.2) HS ps kvs hsz h2.2
+          obtain ⟨ps', ⟨m, hm⟩, ⟨k, hk⟩⟩ := collect_entries E bad H kt vt n (.obj kvs) ⟨kf, hok.1⟩ ⟨kf, hok.2⟩ HS ps kvs hsz h2.2
           refine ⟨.dict ps', ⟨m + 1, by simp [structTy, hh, hm, bind, Except.bind]⟩, ⟨k + 1, ?_⟩⟩
           unfold rep
           simp only [Bool.and_eq_true]
@@ -351,11 +389,11 @@ theorem lemmaA (U : List PyTy) (hU : envOK E bad U = true) (j : Json)
       | tuple ts =>
         cases w <;> cases j <;> try (simp at h2; done)
         case tuple.arr vs xs =>
-          have htsU : ∀ t ∈ ts, t ∈ U := by
+          have htsU : ∀ t ∈ ts, InU E bad H t := by
             intro t ht
             simp only [List.all_eq_true] at hok
-            exact inU_sound (hok t ht)
-          obtain ⟨hl, ws, ⟨m, hm⟩, ⟨k, hk⟩⟩ := collect_tuple E bad U n (.arr xs) HS ts vs xs htsU (fun x hx => size_mem_arr xs x hx) h2
+            exact ⟨kf, hok t ht⟩
+          obtain ⟨hl, ws, ⟨m, hm⟩, ⟨k, hk⟩⟩ := collect_tuple E bad H n (.arr xs) HS ts vs xs htsU (fun x hx => size_mem_arr xs x hx) h2
           refine ⟨.tuple ws, ⟨m + 1, by simp [structTy, hh, hl, hm, bind, Except.bind]⟩, ⟨k + 1, ?_⟩⟩
           unfold rep
           simp only [Bool.and_eq_true]
@@ -363,10 +401,12 @@ theorem lemmaA (U : List PyTy) (hU : envOK E bad U = true) (j : Json)
       | cls c =>
         obtain ⟨n', cl, vals, kvs, hn, hc, rfl, rfl, hnd, hdecl, hrf, ⟨u, hru⟩⟩ := rep_cls_inv E bad hr0
         cases hn
-        simp only [hc, List.all_eq_true, Bool.and_eq_true, Bool.or_eq_true, beq_iff_eq] at hok
-        have hfU : ∀ f ∈ cl.fields, f.ty ∈ U ∧ (f.vld = Vld.none ∨ simpleTyF 4 f.ty = true) :=
-          fun f hf => ⟨inU_sound (hok f hf).1, (hok f hf).2⟩
-        obtain ⟨vals', ⟨m, hm⟩, ⟨k, hk⟩, hvl⟩ := fields_total E bad U cl.name kvs n HS cl.fields vals hrf hfU
+        have hclm : cl ∈ E.pkg.classes := List.mem_of_find?_eq_some hc
+        have hcl := List.all_eq_true.mp hC cl hclm
+        simp only [clsOK, List.all_eq_true, Bool.and_eq_true, Bool.or_eq_true, beq_iff_eq] at hcl
+        have hfU : ∀ f ∈ cl.fields, InU E bad H f.ty ∧ (f.vld = Vld.none ∨ simpleTyF 4 f.ty = true) :=
+          fun f hf => ⟨⟨lightFuel, (hcl f hf).1⟩, (hcl f hf).2⟩
+        obtain ⟨vals', ⟨m, hm⟩, ⟨k, hk⟩, hvl⟩ := fields_total E bad H cl.name kvs n HS cl.fields vals hrf hfU
         have hextra : (kvs.any (fun kv => !(cl.fields.any (·.wireS == kv.1)))) = false := by
           cases hx : kvs.any (fun kv => !(cl.fields.any (·.wireS == kv.1))) with
           | false => rfl
@@ -388,18 +428,22 @@ theorem lemmaA (U : List PyTy) (hU : envOK E bad U = true) (j : Json)
 theorem rep_unknown {n : Nat} {s : String} {w : PyVal} {x : Json} : rep E bad n (.unknown s) w x = false := by
   cases n <;> simp [rep]
 
-theorem lemmaU (U : List PyTy) (hU : envOK E bad U = true) (j : Json)
-    (HA : ∀ ty ∈ U, ty.isUnionTy = false → Valid E bad ty j → Goal E bad ty j)
-    (HS : ∀ x, x.size < j.size → ∀ B ∈ U, Valid E bad B x → Goal E bad B x) :
-    ∀ ts, PyTy.union ts ∈ U → Valid E bad (.union ts) j → Goal E bad (.union ts) j := by
+theorem lemmaU (H : List PyTy) (hP : progsOK E bad H = true) (j : Json)
+    (HA : ∀ ty, InU E bad H ty → ty.isUnionTy = false → Valid E bad ty j → Goal E bad ty j)
+    (HS : ∀ x, x.size < j.size → ∀ B, InU E bad H B → Valid E bad B x → Goal E bad B x) :
+    ∀ ts, InU E bad H (.union ts) → Valid E bad (.union ts) j → Goal E bad (.union ts) j := by
   intro ts hty hv
   obtain ⟨w, n, hr⟩ := hv
-  have hok := tyOK_mem E bad hU hty
+  obtain ⟨kf, hok⟩ := hty
   have hnb := rep_not_bad E bad hr
-  simp only [tyOK, hnb, Bool.false_or] at hok
-  have HL : ∀ B ∈ U, (true = true → B.isUnionTy = false) → Valid E bad B j → Goal E bad B j :=
+  cases kf with
+  | zero => simp [lightOK] at hok
+  | succ kf =>
+  unfold lightOK at hok
+  simp only [hnb, Bool.false_or] at hok
+  have HL : ∀ B, InU E bad H B → (true = true → B.isUnionTy = false) → Valid E bad B j → Goal E bad B j :=
     fun B hB hnu hvB => HA B hB (hnu rfl) hvB
-  have prog : ∀ h, dispatchOK E bad U (.union ts) h = true →
+  have prog : ∀ h, dispatchOK E bad (lightOK E bad H lightFuel) (.union ts) h = true →
       ∃ v', (∃ m, h.run (structTy E m) j = .ok v') ∧ Rep E bad (.union ts) v' j := by
     intro h hd
     simp only [dispatchOK, List.all_eq_true, Bool.or_eq_true] at hd
@@ -408,11 +452,16 @@ theorem lemmaU (U : List PyTy) (hU : envOK E bad U = true) (j : Json)
     · cases a <;> simp [PyTy.isUnknownTy] at hunk
       rw [rep_unknown] at hw'
       cases hw'
-    · exact chk_sound E bad U h true (.union ts) { ty := a } j HL HS hchk (St.Holds.of_rep E bad hw')
+    · exact chk_sound E bad (lightOK E bad H lightFuel) (InU E bad H) (fun B hB => ⟨lightFuel, hB⟩) h true (.union ts)
+        { ty := a } j HL HS hchk (St.Holds.of_rep E bad hw')
+  have hprogOK : inU H (.union ts) = true → progOK E bad H (.union ts) = true :=
+    fun hin => List.all_eq_true.mp hP _ (inU_sound hin)
   cases hh : E.hookFor (.union ts) with
   | some h =>
     simp only [hh] at hok
-    obtain ⟨v', ⟨m, hm⟩, hrv⟩ := prog h hok
+    have hp := hprogOK hok
+    simp only [progOK, hnb, Bool.false_or, hh] at hp
+    obtain ⟨v', ⟨m, hm⟩, hrv⟩ := prog h hp
     exact ⟨v', ⟨m + 1, by simp [structTy, hh, hm]⟩, hrv⟩
   | none =>
     simp only [hh] at hok
@@ -432,7 +481,7 @@ theorem lemmaU (U : List PyTy) (hU : envOK E bad U = true) (j : Json)
           rcases hmem a ha with rfl | rfl
           · exact ⟨w', n, hw'⟩
           · exact absurd (rep_noneTy E bad hw') hj
-        obtain ⟨v', ⟨m, hm⟩, ⟨k, hk⟩⟩ := HA x (inU_sound hok.1) hok.2 hvx
+        obtain ⟨v', ⟨m, hm⟩, ⟨k, hk⟩⟩ := HA x ⟨kf, hok.1⟩ hok.2 hvx
         refine ⟨v', ⟨m + 1, ?_⟩, ⟨k + 1, ?_⟩⟩
         · cases j <;> first | exact absurd rfl hj | simp [structTy, hh, ho, hm]
         · unfold rep
@@ -440,36 +489,39 @@ theorem lemmaU (U : List PyTy) (hU : envOK E bad U = true) (j : Json)
           exact ⟨hnb, Or.inl ⟨x, hx, hk⟩⟩
     | none =>
       simp only [ho, Bool.and_eq_true] at hok
+      obtain ⟨⟨hall, hdis⟩, hin⟩ := hok
+      have hp := hprogOK hin
+      simp only [progOK, hnb, Bool.false_or, hh] at hp
       cases hd : E.disambFor (.union ts) with
-      | none => simp [hd] at hok
+      | none => simp [hd] at hdis
       | some h =>
-        simp only [hd] at hok
-        obtain ⟨v', ⟨m, hm⟩, hrv⟩ := prog h hok.2
-        exact ⟨v', ⟨m + 1, by simp [structTy, hh, ho, hok.1, hd, hm]⟩, hrv⟩
+        simp only [hd] at hp
+        obtain ⟨v', ⟨m, hm⟩, hrv⟩ := prog h hp
+        exact ⟨v', ⟨m + 1, by simp [structTy, hh, ho, hall, hd, hm]⟩, hrv⟩
 
 /-! ### T1 -/
 
-/-- **T1.**  In an environment that passes the dispatch check, every JSON value that has a typed
-    reading at an annotation of the universe is structured successfully, and the result is a typed
-    reading of that value at that annotation — whatever the nesting, whichever union alternatives. -/
-theorem structure_total (U : List PyTy) (hU : envOK E bad U = true) :
-    ∀ (s : Nat) (j : Json), j.size ≤ s → ∀ ty ∈ U, Valid E bad ty j → Goal E bad ty j
+/-- **T1.**  In an environment whose dispatch programs and class table pass the checks, every JSON
+    value that has a typed reading at an annotation is structured successfully, and the result is a
+    typed reading of that value at that annotation — whatever the nesting, whichever alternatives. -/
+theorem structure_total (H : List PyTy) (hP : progsOK E bad H = true) (hC : clsesOK E bad H = true) :
+    ∀ (s : Nat) (j : Json), j.size ≤ s → ∀ ty, InU E bad H ty → Valid E bad ty j → Goal E bad ty j
   | 0, j, hs, _, _, _ => by have := Json.size_pos j; omega
   | s + 1, j, hs, ty, hty, hv => by
-    have HS : ∀ x, x.size < j.size → ∀ B ∈ U, Valid E bad B x → Goal E bad B x :=
-      fun x hx B hB hvB => structure_total U hU s x (by omega) B hB hvB
-    have HA := lemmaA E bad U hU j HS
+    have HS : ∀ x, x.size < j.size → ∀ B, InU E bad H B → Valid E bad B x → Goal E bad B x :=
+      fun x hx B hB hvB => structure_total H hP hC s x (by omega) B hB hvB
+    have HA := lemmaA E bad H hC j HS
     cases hu : ty.isUnionTy with
     | false => exact HA ty hty hu hv
     | true =>
       cases ty <;> simp [PyTy.isUnionTy] at hu
-      exact lemmaU E bad U hU j HA HS _ hty hv
+      exact lemmaU E bad H hP j HA HS _ hty hv
 
-/-- The form the properties use. -/
-theorem T1 (U : List PyTy) (hU : envOK E bad U = true) (ty : PyTy) (hty : ty ∈ U) (j : Json) (v : PyVal) (n : Nat)
-    (h : rep E bad n ty v j = true) :
-    ∃ v' m, structTy E m ty j = .ok v' ∧ ∃ k, rep E bad k ty v' j = true := by
-  obtain ⟨v', ⟨m, hm⟩, ⟨k, hk⟩⟩ := structure_total E bad U hU j.size j (Nat.le_refl _) ty hty ⟨v, n, h⟩
-  exact ⟨v', m, hm, k, hk⟩
+/-- The form the properties use: `k` is the fuel at which the closure check of `ty` was evaluated. -/
+theorem T1 (H : List PyTy) (hP : progsOK E bad H = true) (hC : clsesOK E bad H = true) (ty : PyTy) (k : Nat)
+    (hty : lightOK E bad H k ty = true) (j : Json) (v : PyVal) (n : Nat) (h : rep E bad n ty v j = true) :
+    ∃ v' m, structTy E m ty j = .ok v' ∧ ∃ k', rep E bad k' ty v' j = true := by
+  obtain ⟨v', ⟨m, hm⟩, ⟨k', hk'⟩⟩ := structure_total E bad H hP hC j.size j (Nat.le_refl _) ty ⟨k, hty⟩ ⟨v, n, h⟩
+  exact ⟨v', m, hm, k', hk'⟩
 
 end LspVerif
